@@ -310,10 +310,10 @@ def run(ctx):
         raise MachineryError("NonInterf invariants did not catch the shared-buffer model mutant (vacuous)")
     ctx.cov["model_mutant_caught"] = rm.violated
     if ctx.tier == "quick":
-        jobs = two_client_jobs(ctx, "q0", "S_t1d", nb=180, max_pw=0, emit_mod=40)
+        jobs = two_client_jobs(ctx, "q0", "S_t1d", nb=130, max_pw=0, emit_mod=40)
         differential(ctx, "two", "S_t1d", jobs)
-        noninterf_model(ctx, "q1sim", "S_t1d", exhaustive=False, simulate="num=4000", depth=30, workers=6, timeout=120, max_pw=1)
-        jobs = three_client_jobs(ctx, "three", "S_t1b", nmerge=100, emit_mod=40, max_inst=2, max_pw=1, stray=1)
+        noninterf_model(ctx, "q1sim", "S_t1d", exhaustive=False, simulate="num=2500", depth=30, workers=6, timeout=120, max_pw=1)
+        jobs = three_client_jobs(ctx, "three", "S_t1b", nmerge=70, emit_mod=60, max_inst=2, max_pw=1, stray=1)
         differential(ctx, "three", "S_t1b", jobs)
     else:
         jobs = two_client_jobs(ctx, "q0", "S_t1d", nb=2500, max_pw=0, emit_mod=4)
